@@ -373,6 +373,20 @@ func init() {
 		}
 		return it
 	})
+	addItems("C06", func(tier string) []Item {
+		// DeviceTimeAns over the full Duration domain (off the 1/256 s grid): shared with C07
+		return []Item{{PkgKey: "root", Func: "VerifC07_RoundTrip", Shape: []int{11}}}
+	})
+	addItems("C15", func(tier string) []Item {
+		// more custom channels than a CFList holds (EU868, IN865, AS923, KR920)
+		var it []Item
+		for _, n := range pick(tier, []int{0, 3}, []int{0, 3, 5, 10}) {
+			for _, ver := range pick(tier, []int{3}, []int{2, 3, 6}) {
+				it = append(it, Item{PkgKey: "band", Func: "VerifC15_CFList", Shape: []int{n, 0, 0, 6, ver, 0, 2}})
+			}
+		}
+		return it
+	})
 	addItems("C16", func(tier string) []Item {
 		var it []Item
 		for kind := 0; kind <= 2; kind++ {
